@@ -147,7 +147,17 @@ func (r *Run) NViolations() int {
 }
 
 func LoadFindings() []Finding {
-	f, err := os.Open(filepath.Join(Root, "known_findings.jsonl"))
+	var out []Finding
+	files, _ := filepath.Glob(filepath.Join(Root, "findings", "*.jsonl"))
+	files = append([]string{filepath.Join(Root, "known_findings.jsonl")}, files...)
+	for _, fn := range files {
+		out = append(out, loadFindingsFile(fn)...)
+	}
+	return out
+}
+
+func loadFindingsFile(fn string) []Finding {
+	f, err := os.Open(fn)
 	if err != nil {
 		return nil
 	}
